@@ -33,6 +33,10 @@ pub struct World {
     pub siblings_list: Vec<(usize, usize)>,
     /// (a, b, k): the same module under two option sets, finely interleaved on two workers, k-th seed
     pub duel_list: Vec<(usize, usize, u32)>,
+    /// number of runs of the `gen` stratum (freshly generated modules, see gen.rs)
+    pub gen_runs: u64,
+    /// task -> the other modules of its workload directory (own option set, comments on), for the crash sweep
+    pub dir_mates: BTreeMap<usize, Vec<usize>>,
 }
 
 /// Steps of a solo trace worth a systematic fault/preemption: the first two and the last
@@ -178,6 +182,14 @@ impl World {
                 dirs.entry(dir).or_default().push(i);
             }
         }
+        let mut dir_mates: BTreeMap<usize, Vec<usize>> = BTreeMap::new();
+        for (_d, v) in &dirs {
+            if v.len() > 1 {
+                for &a in v {
+                    dir_mates.insert(a, v.iter().copied().filter(|b| *b != a).collect());
+                }
+            }
+        }
         let partners = if thorough { usize::MAX } else { 10 };
         let mut siblings_list = vec![];
         let mut rng = Rng::new(mix(seed ^ 0x5349_424c));
@@ -218,7 +230,8 @@ impl World {
                 }
             }
         }
-        World { seed, thorough, tasks, info, pool, by_site, crash_list, ecrash_list, preempt_list, probes, long_runs, siblings_list, duel_list }
+        let gen_runs = if thorough { 600_000 } else { 6_000 };
+        World { seed, thorough, tasks, info, pool, by_site, crash_list, ecrash_list, preempt_list, probes, long_runs, siblings_list, duel_list, gen_runs, dir_mates }
     }
 
     fn base(&self, stratum: &str, run: u64) -> Plan {
@@ -250,6 +263,7 @@ impl World {
             "long" => self.long_runs,
             "siblings" => self.siblings_list.len() as u64,
             "duel" => self.duel_list.len() as u64,
+            "gen" => self.gen_runs,
             _ => 0,
         }
     }
@@ -273,6 +287,15 @@ impl World {
             u = self.probes[(run as usize + 1) % self.probes.len()];
         }
         p.tasks = vec![t0, self.tasks[i].clone(), self.tasks[u].clone()];
+        // every third run: `[t crashed at k ; a sibling of t ; t]` - what the aborted transform left behind meets
+        // a module that uses the same names for other things before anything completes normally on the worker
+        if run % 3 == 1 {
+            let own = self.tasks.iter().position(|x| x.name == self.tasks[i].name && x.opt_name == "own" && x.comments && !x.script);
+            if let Some(mates) = own.and_then(|o| self.dir_mates.get(&o)) {
+                let b = mates[(mix(self.seed ^ run) % mates.len() as u64) as usize];
+                p.tasks = vec![p.tasks[0].clone(), self.tasks[b].clone(), self.tasks[i].clone()];
+            }
+        }
         p.opts_per_task = run % 2 == 1;
         // mostly the native-host topology (everything shared); every fourth run the test-harness one
         // (fresh Globals and SourceMap per file: equal absolute positions, equal mark numbers), every
@@ -457,6 +480,137 @@ impl World {
         (p, vec![])
     }
 
+    /// stratum 8: freshly generated modules (gen.rs) under generated option sets, next to each other and
+    /// next to bystanders from the fixed workload, on a randomly drawn host. The plan that comes out of
+    /// here is raw: the child computes the solo references of the generated tasks, drops what does not
+    /// parse or does not return alone (reporting the latter), and then plants the faults (`finish_gen`).
+    pub fn gen_plan(&self, run: u64) -> (Plan, Vec<Action>) {
+        let mut p = self.base("gen", run);
+        let mut rng = Rng::new(mix(self.seed ^ mix(run.wrapping_mul(0x2545_F491_4F6C_DD1D)) ^ 0x4745_4e21));
+        p.workers = 1 + rng.below(3) as u8;
+        p.globals = match rng.below(20) {
+            0..=11 => GlobalsMode::Shared,
+            12..=16 => GlobalsMode::PerTask,
+            _ => GlobalsMode::Epochs,
+        };
+        p.store = if rng.chance(50) { StoreMode::Shared } else { StoreMode::PerTask };
+        p.opts_per_task = rng.chance(50);
+        p.handler_shared = rng.chance(15);
+        if rng.chance(30) {
+            p.stack_kib = (0..p.workers).map(|_| [2048u32, 8192, 65536][rng.below(3)]).collect();
+        }
+        let fault_free = rng.chance(40);
+        p.allow_replace = !fault_free && rng.chance(30);
+        p.max_restarts = if !fault_free && p.globals == GlobalsMode::Epochs { 1 } else { 0 };
+        p.boundary_fault_pct = if p.allow_replace || p.max_restarts > 0 { 10 + rng.below(25) as u32 } else { 0 };
+        let en_noise = rng.chance(40);
+        let ng = 1 + rng.below(3);
+        for k in 0..ng {
+            let m = crate::gen::module(&mut rng);
+            let modular = m.src.lines().any(|l| {
+                let t = l.trim_start();
+                t.starts_with("import ") || t.starts_with("export ")
+            });
+            let mut t = PlanTask {
+                name: format!("gen/{}/{}.{}", self.seed, run, k),
+                opt_name: "g0".into(),
+                src: m.src,
+                ts: m.ts,
+                options: m.options,
+                comments: m.comments,
+                script: !modular && rng.chance(30),
+                crash_at: None,
+                emitter_crash_at: None,
+                noise: Default::default(),
+            };
+            if en_noise {
+                t.noise = Noise { marks_before: rng.below(65) as u8, pad_files: rng.below(4) as u8, atoms: rng.below(9) as u8, dummy_cnt: rng.below(6) as u8, yield_marks: rng.below(3) as u8, heap: rng.below(9) as u8, seed: rng.next() % 100_000 };
+            }
+            p.tasks.push(t.clone());
+            // the same text again: repeated, under another generated option set, or without / with comments
+            match rng.below(6) {
+                0 => p.tasks.push(t),
+                1 | 2 => {
+                    t.opt_name = "g1".into();
+                    t.options = crate::gen::options(&mut rng);
+                    p.tasks.push(t);
+                }
+                _ => {}
+            }
+        }
+        // a third of the runs: `[A crashed at a step to be chosen ; B ; A]` on one worker, A and B generated from the
+        // same small vocabulary of names (what an aborted transform leaves behind meets the same names bound to
+        // other things before anything completes normally on that worker)
+        if rng.chance(33) {
+            let a = p.tasks[0].clone();
+            let m = crate::gen::module_like(&mut rng, a.ts);
+            let b = PlanTask { name: format!("gen/{}/{}.b", self.seed, run), opt_name: "g0".into(), src: m.src, ts: m.ts, options: if rng.chance(50) { a.options.clone() } else { m.options }, comments: a.comments, script: false, crash_at: None, emitter_crash_at: None, noise: Default::default() };
+            let mut a0 = a.clone();
+            a0.crash_at = Some(0); // planted by finish_gen
+            p.tasks = vec![a0, b, a];
+            p.workers = 1;
+            p.strategy = Strategy::Script;
+            p.allow_replace = false;
+            p.max_restarts = 0;
+            p.boundary_fault_pct = 0;
+            p.globals = if rng.chance(50) { GlobalsMode::PerTask } else { GlobalsMode::Shared };
+            p.stack_kib = vec![];
+            for t in p.tasks.iter_mut() {
+                t.noise = Default::default();
+            }
+            return (p, vec![]);
+        }
+        // bystanders from the fixed workload
+        for _ in 0..rng.below(3) {
+            if !self.pool.is_empty() {
+                p.tasks.push(self.tasks[self.pool[rng.below(self.pool.len())]].clone());
+            }
+        }
+        for i in (1..p.tasks.len()).rev() {
+            p.tasks.swap(i, rng.below(i + 1));
+        }
+        p.strategy = if p.workers == 1 {
+            Strategy::Script
+        } else if rng.chance(30) {
+            let mut pr: Vec<u32> = (0..p.tasks.len() as u32).collect();
+            for i in (1..pr.len()).rev() {
+                pr.swap(i, rng.below(i + 1));
+            }
+            Strategy::Pct { priorities: pr, change_points: (0..1 + rng.below(3)).map(|_| 1 + rng.next() % 600).collect() }
+        } else {
+            Strategy::Random { stay: [0, 50, 80, 90, 95, 98][rng.below(6)] }
+        };
+        (p, vec![])
+    }
+
+    /// Second half of `gen_plan`: `steps[i]` / `ndiags[i]` are those of task i's solo run.
+    pub fn finish_gen(p: &mut Plan, steps: &[u32], ndiags: &[u32]) {
+        let mut rng = Rng::new(mix(p.sched_seed ^ 0x6661_756c_7473));
+        if let Some(n) = p.tasks.iter().position(|t| t.crash_at == Some(0)) {
+            // crash-pair shape: a crash somewhere in A (emitter crashes for A's diagnostics half of the time)
+            if ndiags[n] > 0 && rng.chance(40) {
+                p.tasks[n].crash_at = None;
+                p.tasks[n].emitter_crash_at = Some(1 + rng.below(ndiags[n] as usize) as u32);
+            } else {
+                p.tasks[n].crash_at = Some(1 + rng.below(steps[n].max(1) as usize) as u32);
+            }
+            return;
+        }
+        if p.boundary_fault_pct == 0 && !p.allow_replace && rng.chance(40) {
+            return; // fault-free
+        }
+        let mut crashes = 0;
+        for (n, t) in p.tasks.iter_mut().enumerate() {
+            if crashes * 3 <= n && rng.chance(25) {
+                t.crash_at = Some(1 + rng.below(steps[n] as usize + 1) as u32);
+                crashes += 1;
+            } else if ndiags[n] > 0 && crashes * 3 <= n && rng.chance(30) {
+                t.emitter_crash_at = Some(1 + rng.below(ndiags[n] as usize) as u32);
+                crashes += 1;
+            }
+        }
+    }
+
     fn index_of(&self, t: &PlanTask) -> usize {
         self.tasks.iter().position(|x| x.name == t.name && x.opt_name == t.opt_name && x.comments == t.comments).expect("task from the workload")
     }
@@ -469,6 +623,7 @@ impl World {
             "long" => self.long_plan(run),
             "siblings" => self.siblings_plan(run),
             "duel" => self.duel_plan(run),
+            "gen" => self.gen_plan(run),
             _ => panic!("unknown stratum {stratum}"),
         }
     }
